@@ -208,6 +208,44 @@ func init() {
 		in.event("time.Add d=%s", d.S)
 		return &TimeV{Inst: smt.BVAdd(x.Inst, d), UTC: x.UTC, Clock: x.Clock}
 	}
+	// AddDate(0, 0, days): calendar days in the value's own zone. In UTC that is days*24h; a value held in a zone
+	// with daylight saving (the scenarios' non-UTC clock is Europe/Berlin) keeps its wall-clock reading across a
+	// change of offset, so the instant moves by days*24h -/+ 1h when a transition lies in between.
+	models["(time.Time).AddDate"] = func(in *Interp, fn *ssa.Function, a []Value) Value {
+		x := timeArg(in, a[0])
+		y, m, d := termArg(in, a[1]), termArg(in, a[2]), termArg(in, a[3])
+		if !y.Const || !m.Const || !d.Const || y.U != 0 || m.U != 0 || int64(d.U) < 0 || int64(d.U) > 366 {
+			in.end("unmodelled", "time.AddDate(%s, %s, %s): only whole days ahead are modelled, at %s", y.S, m.S, d.S, in.where())
+		}
+		days := int64(d.U)
+		in.event("time.AddDate days=%d", days)
+		in.X.noteAssumption("time.AddDate(0,0,n): n*24h for a value held in UTC; for a non-UTC value (Europe/Berlin in the scenarios, EU daylight-saving rule, years 2020..2037) n*24h minus/plus one hour when a spring/autumn transition lies strictly inside the period (the two hours around each boundary are treated as no shift)")
+		base := smt.BVAdd(x.Inst, smt.BV(uint64(days*86400_000_000_000), 64))
+		if x.UTC.Const && x.UTC.B {
+			return &TimeV{Inst: base, UTC: x.UTC, Clock: x.Clock}
+		}
+		const hour = int64(3600_000_000_000)
+		shift := smt.BV(0, 64)
+		for yr := 2020; yr <= 2037; yr++ {
+			for _, tr := range []struct {
+				month time.Month
+				delta int64
+			}{{time.March, -hour}, {time.October, hour}} {
+				t := time.Date(yr, tr.month, 31, 1, 0, 0, 0, time.UTC)
+				for t.Weekday() != time.Sunday {
+					t = t.AddDate(0, 0, -1)
+				}
+				T := t.UnixNano()
+				lo, hi := T-days*24*hour+2*hour, T-2*hour
+				if lo >= hi {
+					continue
+				}
+				inside := smt.And(smt.BVSlt(smt.BV(uint64(lo), 64), x.Inst), smt.BVSlt(x.Inst, smt.BV(uint64(hi), 64)))
+				shift = smt.Ite(inside, smt.BV(uint64(tr.delta), 64), shift)
+			}
+		}
+		return &TimeV{Inst: smt.BVAdd(base, smt.Ite(x.UTC, smt.BV(0, 64), shift)), UTC: x.UTC, Clock: x.Clock}
+	}
 	models["(time.Time).Sub"] = func(in *Interp, fn *ssa.Function, a []Value) Value {
 		x, y := timeArg(in, a[0]), timeArg(in, a[1])
 		return smt.BVSub(x.Inst, y.Inst)
